@@ -53,16 +53,24 @@ func GetNonce(ctx context.Context) (nonce string) {
 	return v.nonce
 }
 
+// childrenContextKey holds the children passed to a component. The children
+// are stored in their own context value (not in the shared, mutable
+// contextValue), so they are visible only to the component that was called
+// with the context returned by WithChildren, and never to its siblings.
+type childrenContextKeyType int
+
+const childrenContextKey = childrenContextKeyType(0)
+
 func WithChildren(ctx context.Context, children Component) context.Context {
-	ctx, v := getContext(ctx)
-	v.children = &children
-	return ctx
+	ctx = InitializeContext(ctx)
+	return context.WithValue(ctx, childrenContextKey, &children)
 }
 
 func ClearChildren(ctx context.Context) context.Context {
-	_, v := getContext(ctx)
-	v.children = nil
-	return ctx
+	if c, _ := ctx.Value(childrenContextKey).(*Component); c == nil {
+		return ctx
+	}
+	return context.WithValue(ctx, childrenContextKey, (*Component)(nil))
 }
 
 // NopComponent is a component that doesn't render anything.
@@ -70,11 +78,11 @@ var NopComponent = ComponentFunc(func(ctx context.Context, w io.Writer) error { 
 
 // GetChildren from the context.
 func GetChildren(ctx context.Context) Component {
-	_, v := getContext(ctx)
-	if v.children == nil {
+	c, _ := ctx.Value(childrenContextKey).(*Component)
+	if c == nil {
 		return NopComponent
 	}
-	return *v.children
+	return *c
 }
 
 // EscapeString escapes HTML text within templates.
@@ -509,7 +517,6 @@ const contextKey = contextKeyType(0)
 type contextValue struct {
 	ss          map[string]struct{}
 	onceHandles map[*OnceHandle]struct{}
-	children    *Component
 	nonce       string
 }
 
